@@ -143,7 +143,16 @@ def mix_tables():
         stmts = [x[:-1] if x.endswith(";") else x for x in stmts]
         kernels.append((m.group(1), [x for x in stmts if x]))
     sine = int_table("src/lfo.c", "sine_wave")
-    return consts, luts, kernels, sine
+    # who writes an LFO's phase: the arguments of every libxmp_lfo_set_phase call outside lfo.c, and direct writes of a `phase` member
+    import glob
+    args = []; direct = 0
+    for f in sorted(glob.glob(os.path.join(V.REPO, "src", "*.c")) + glob.glob(os.path.join(V.REPO, "src", "loaders", "*.c"))):
+        if os.path.basename(f) == "lfo.c": continue
+        t = strip_comments(open(f, errors="replace").read())
+        for m in re.finditer(r"libxmp_lfo_set_phase\s*\(([^;]*?),\s*([^,;]*?)\)\s*;", t):
+            args.append(re.sub(r"\s+", "", m.group(2)))
+        direct += len(re.findall(r"lfo\s*(?:\.|->)\s*phase\s*(?:[-+*/&|^]|<<|>>)?=(?!=)", t))
+    return consts, luts, kernels, sine, args, direct
 
 
 SENSITIVE = set("""fopen fopen64 open open64 openat opendir readdir readdir64 closedir execvp execv execve execlp execl fork vfork popen system
@@ -206,7 +215,7 @@ def regenerate(with_objects=True):
     t.append("Definition it_fx_table : list Z :=\n  %s." % coq_list(it_fx))
     t.append("Definition IT_FX_NONE : Z := %d.\nDefinition IT_FX_XTND : Z := %d." % (it_loc["FX_NONE"], it_loc["FX_XTND"]))
     V.write_if_changed(os.path.join(V.COQ, "Generated", "Tables.v"), "\n".join(t) + "\n")
-    mc, luts, kernels, sine = mix_tables()
+    mc, luts, kernels, sine, ph_args, ph_direct = mix_tables()
     mt = ["(* GENERATED from /repo's working tree (src/mix_all.c, src/precomp_lut.h, src/lfo.c) by lib/gentables.py on every run. Do not edit. *)",
           "From Coq Require Import ZArith List String.", "Import ListNotations.", "Local Open Scope Z_scope.", ""]
     for k in sorted(mc):
@@ -214,6 +223,9 @@ def regenerate(with_objects=True):
     for k in range(4):
         mt.append("Definition cubic_spline_lut%d : list Z :=\n  %s." % (k, coq_list(luts[k])))
     mt.append("Definition lfo_sine_wave : list Z :=\n  %s." % coq_list(sine))
+    mt.append("(* who sets an LFO's phase outside lfo.c: the argument text of every libxmp_lfo_set_phase call, and the number of direct writes of lfo.phase *)")
+    mt.append("Definition lfo_set_phase_args : list string := [%s]." % "; ".join('"%s"%%string' % a for a in ph_args))
+    mt.append("Definition lfo_phase_direct_writes : nat := %d." % ph_direct)
     mt.append("(* every MIXER(name) { ... } of mix_all.c: its statements with the whitespace removed *)")
     mt.append("Definition mix_kernels : list (string * list string) :=\n  [" + ";\n   ".join(
         '("%s"%%string, [%s])' % (n, "; ".join('"%s"%%string' % x for x in st)) for n, st in kernels) + "].")
